@@ -128,6 +128,19 @@ def history_problems(name):
             alone = Shaper(raw_graph=DOC, all_classes_mode=True, namespaces_dict=dict(user)).shex_graph(string_output=True)
             if second != alone:
                 problems.append("a Shaper built with a namespaces dict that another Shaper used before behaves differently (user dict %r):\n%s\n---\n%s" % (user, second, alone))
+        # the caller's dict may itself declare the shapes namespace; merely constructing Shapers must neither touch it nor influence one another
+        shapes_ns = "http://weso.es/shapes/"
+        for user in ({"http://ex.org/": "ex", shapes_ns: "sx"}, {"http://ex.org/": "ex", shapes_ns: ""}, {"http://ex.org/": "", shapes_ns: "weso-s"}, {"http://ex.org/": "ex"}):
+            shared = dict(user)
+            first = Shaper(raw_graph=DOC, all_classes_mode=True, namespaces_dict=shared)
+            second = Shaper(raw_graph=DOC, all_classes_mode=True, namespaces_dict=shared)
+            out_second = second.shex_graph(string_output=True)
+            out_first = first.shex_graph(string_output=True)
+            alone = Shaper(raw_graph=DOC, all_classes_mode=True, namespaces_dict=dict(user)).shex_graph(string_output=True)
+            if shared != user:
+                problems.append("constructing Shapers modified the caller's namespaces dict: %r -> %r" % (user, shared))
+            if out_second != alone or out_first != alone:
+                problems.append("two Shapers built from one namespaces dict object (user dict %r) differ from a Shaper with its own dict:\n%s\n---\n%s\n---\n%s" % (user, out_first, out_second, alone))
     elif name == "format-after-format":
         sh = Shaper(raw_graph=DOC, all_classes_mode=True, namespaces_dict=dict(BIG_NS))
         sh.shex_graph(string_output=True, output_format=SHACL_TURTLE)
